@@ -5,6 +5,22 @@ ROOT = os.path.dirname(os.path.dirname(os.path.abspath(__file__)))
 props = [json.loads(l)['id'] for l in open(os.path.join(ROOT, 'properties.jsonl'))]
 
 CHECKS = {
+ 'C01': dict(level='exploration', engine='corr', design='7 (C01)',
+   technique='TLA+-enumerated configuration space (Workload.tla) run as concurrent tagged workloads on two real peers; TLC trace validation against PCorr.tla',
+   text='Every cell of protocol x codec x filter pipe (capability matrix of the spec) x load profile is a truly concurrent workload (Call, AsyncCall, Push, reverse-direction calls, handlers that stay inside while other frames are decoded and then re-read their argument); every body, padding and metadata value is a unique tag and TLC checks each handler input and each OK result against the sender\'s values. Interleavings are sampled by the Go scheduler, not enumerated.',
+   note='Trusted: TLC, the harness tag bookkeeping. http / websocket / thrift-struct protocols are not driven by this engine (their framing is covered by C05).'),
+ 'C03': dict(level='model_checking', engine='disp', design='7 (C03), 6 (Dispatch.tla)',
+   technique='TLA+ model checking of the single-message pipeline (Dispatch.tla); every terminal state replayed between two real peers; TLC trace validation against PDispatch.tla',
+   text='Dispatch.tla enumerates every scenario (message kind, route class, plugin stage profiles, one vetoing (plugin, stage), handler outcome incl. panic, undecodable bodies) and TLC checks AtMostOneHandler / OneReply on all of them; each scenario is executed between two real peers with a wire tap counting CALL/REPLY frames, and the recorded events are validated against the dispatch rules. Concurrent arrivals and disconnect alternatives are covered by the sess engine traces (PSession C03 rules).',
+   note='Trusted: TLC, the harness frame counter (an independent parser of the raw framing). Raw protocol + JSON codec only.'),
+ 'C04': dict(level='model_checking', engine='disp', design='7 (C04)',
+   technique='TLA+ model checking (Dispatch.tla: OKIff) with replay of every scenario and TLC trace validation of the caller status rule (PDispatch.tla)',
+   text='For every scenario of Dispatch.tla the caller status observed on the real code must be OK iff the handler ran to completion, returned OK and the reply was decoded, and otherwise equal the handler triple or the applicable framework rule (404, 400, 500, veto status, connection error).',
+   note='Raw protocol + JSON codec; status value classes over other protocols are covered by the wire round-trip check (C05).'),
+ 'C09': dict(level='model_checking', engine='disp', design='7 (C09)',
+   technique='TLA+ model checking (Dispatch.tla: HookOnce, VetoStops, CallerVetoStops, Scoped) with replay and TLC trace validation of hook order / veto rules (PDispatch.tla)',
+   text='For every scenario the recorded (plugin, stage) sequence on both sides must equal the documented stage and registration order computed by the specification (global-left, group, handler, global-right; cut at a veto), plugins outside the matched chain must stay silent, a pre-handler veto must prevent the handler and become the caller status, a vetoing pre-write hook must leave nothing on the wire.',
+   note='Plugins are registered before the routes exist; three stage profiles per plugin; at most one veto per scenario.'),
  'C02': dict(level='model_checking', engine='sess', design='7 (C02), 6 (Session.tla)',
    technique='TLA+ model checking (Session.tla, TLC exhaustive + liveness) bound to the code by strict hold-point replay of TLC behaviours and TLC trace validation (PSession.tla) of recorded executions',
    text='Every interleaving of call issue / write / reply arrival / Close / connection loss / hostile reply for 2 calls + 1-2 inbound calls + 1-2 Close invocations is model-checked (NoHang, DoneAtMostOnce, liveness under weak fairness); TLC-generated behaviours are replayed step by step on the real session with the projected state compared after each step, and every recorded execution (strict and free-running) is validated by TLC against the completion rules of the Layer P trace specification.',
@@ -44,6 +60,12 @@ def main():
         'hooks': {'guard': 'verif', 'enable': 'go build -tags verif (harness module /verif/harness, replace github.com/henrylee2cn/erpc/v6 => /repo)',
                   'baseline_off_cmd': 'bin/baseline_off.sh', 'source_commits': hook_commits[::-1], 'add_only': True},
         'engines': [
+            {'name': 'hub', 'path': 'lib/eng_hub.py', 'serves_properties': ['C07'],
+             'kind_free_text': 'TLC model checking of spec/Hub.tla (session index under operation histories incl. running handlers and blocked takeovers); one scenario per explored transition replayed by harness driver hub; TLC trace validation against spec/PHub.tla'},
+            {'name': 'disp', 'path': 'lib/eng_disp.py', 'serves_properties': ['C03', 'C04', 'C09'],
+             'kind_free_text': 'TLC model checking of spec/Dispatch.tla; every terminal state replayed by harness driver disp; TLC trace validation against spec/PDispatch.tla'},
+            {'name': 'corr', 'path': 'lib/eng_corr.py', 'serves_properties': ['C01'],
+             'kind_free_text': 'configuration space from spec/Workload.tla; concurrent tagged workloads (driver corr); TLC trace validation against spec/PCorr.tla'},
             {'name': 'sess', 'path': 'lib/eng_sess.py', 'serves_properties': ['C02', 'C07', 'C08'],
              'kind_free_text': 'TLC model checking of spec/Session.tla; scenario export via spec/SessionGen.tla; strict/free replay by harness driver sess; TLC trace validation against spec/PSession.tla'},
         ],
